@@ -2,13 +2,14 @@
 (***************************************************************************)
 (* C13: every read is confined to the requested time window and signal.    *)
 (*                                                                         *)
-(* Time is in ticks of 15 minutes over three days (day = 96 ticks, the      *)
-(* 30 min safety margin of FormatFromDate = 2 ticks, so that instants      *)
-(* inside the margin exist; the concrete binding uses Nov 29, Nov 30,      *)
-(* Dec 1: a month boundary).  A                                            *)
-(* request asks for the window [from, to) (or [from, to] for APIs whose    *)
-(* end is inclusive) of one signal.  A SCAN DESCRIPTOR says how one        *)
-(* statement of the reader restricts one base table:                       *)
+(* Time is in ticks of 15 minutes over three days (day = 96 ticks; the     *)
+(* 30 min safety margin of FormatFromDate is 2 ticks, so that instants     *)
+(* INSIDE the margin exist - with 30 min ticks a bound like                *)
+(* utcDate(to - 30 min) could never be seen to miss; the concrete binding  *)
+(* uses Nov 29, Nov 30, Dec 1 2023: a month boundary).  A request asks for *)
+(* the window [from, to) (or [from, to] for APIs whose end is inclusive)   *)
+(* of one signal.  A SCAN DESCRIPTOR says how one statement of the reader  *)
+(* restricts one base table:                                               *)
 (*   kind   "data"  rows carry a timestamp (samples_v3, metrics_15s,       *)
 (*                  tempo_traces, profiles)                                *)
 (*          "index" rows carry a date (time_series, time_series_gin,       *)
